@@ -12,7 +12,7 @@ RULE = ("(a) random interior (s,z) per cone structure incl. mnl, then 1..30 upda
 ASSUMPTIONS = ["W is reconstructed from (dnl, d, beta, v, r) by its documented definition; di, dnli, rti are checked against it",
                "identities are measured relative to the norms of the factors (threshold 1e-9 for random scalings, scaled by the condition of W in converging histories)"]
 REQUIRED_COUNTERS = ["a.compute", "a.update", "a.history>=10", "b.structurally-sparse", "b.ldl", "b.ldl2", "b.chol", "b.chol2", "b.qr", "b.chol2.singular-branch",
-                     "b.chol2.refactor", "b.sparse", "b.mnl", "b.H", "b.interleaved", "c.W-observed", "c.frame-identity-checked",
+                     "b.chol2.refactor", "b.sparse", "b.mnl", "b.H", "b.H-lower-storage", "b.interleaved", "c.W-observed", "c.frame-identity-checked",
                      "c.conelp", "c.coneqp"]
 
 
@@ -226,7 +226,15 @@ def run(ctx):
                 H = None; withH = False
         Gm, Am = sr.mk(G, sparse), sr.mk(A, sparse and rng.random() < 0.6)
         Dfm = sr.mk(Df, sparse and rng.random() < 0.5) if mnl else None
-        Hm = sr.mk(H, sparse and rng.random() < 0.5) if withH else None
+        Hstore = H
+        if withH and not structural and rng.random() < 0.6:
+            # "only the lower triangular part of H is referenced" (solvers.rst, coneprog.rst): the strict upper
+            # triangle holds zeros or unrelated numbers
+            Hstore = np.tril(H)
+            if rng.random() < 0.6:
+                Hstore = Hstore + np.triu(np.array([[rng.uniform(-50, 50) for _ in range(n)] for _ in range(n)]), 1)
+            ctx.count("b.H-lower-storage")
+        Hm = sr.mk(Hstore, sparse and rng.random() < 0.5) if withH else None
         imgs = [to_np(Gm).copy(), to_np(Am).copy()]
         try:
             if name == "qr":
